@@ -17,10 +17,10 @@ import (
 type outcome int
 
 const (
-	outOK     outcome = iota // operation takes effect and returns success
-	outErrA                  // operation takes effect, caller sees an error
-	outErrN                  // operation does not take effect, caller sees an error
-	outAbandon               // process died: the goroutine is parked forever
+	outOK      outcome = iota // operation takes effect and returns success
+	outErrA                   // operation takes effect, caller sees an error
+	outErrN                   // operation does not take effect, caller sees an error
+	outAbandon                // process died: the goroutine is parked forever
 )
 
 func (o outcome) String() string {
